@@ -573,7 +573,9 @@ func (g *Gen) applyContract(t callTarget, c *ssa.CallCommon, args []string, recv
 	}
 	// ghost updates of the callee (`sets`) are facts about the post-state
 	for _, sd := range ct.Sets {
-		v, err := envPost.EvalVal(sd.E)
+		envSet := *envPost
+		envSet.now = pre
+		v, err := envSet.EvalVal(sd.E)
 		if err != nil {
 			g.errorf("%s: sets at call from %s: %v", sd.Line, funcKey(g.fn), err)
 			continue
@@ -587,6 +589,8 @@ func (g *Gen) applyContract(t callTarget, c *ssa.CallCommon, args []string, recv
 		cur := post.Get(c.varName, c.sort)
 		g.vc.AssumeAt(guard, Eq(nestedSelect(cur, c.addrs), v.T), "ghost update of "+t.key+": "+sd.Target)
 	}
+	// vacuity guard: the state after the call must be reachable under the assumed contract
+	g.vc.Covers = append(g.vc.Covers, CoverPoint{Guard: guard, NAssumes: len(g.vc.assumes), What: "after call to " + t.key + " at " + g.pos(pos)})
 	return post, results
 }
 
@@ -657,7 +661,9 @@ func (g *Gen) finishReturns() {
 	pos := g.pos(sites[0].pos)
 	// ghost updates declared by the contract (`sets`): performed at exit, visible to ensures and frames
 	for _, sd := range g.contract.Sets {
-		v, err := env.EvalVal(sd.E)
+		envSet := *env
+		envSet.now = g.entry
+		v, err := envSet.EvalVal(sd.E)
 		if err != nil {
 			g.errorf("%s: sets %s: %v", sd.Line, sd.Target, err)
 			continue
